@@ -587,7 +587,8 @@ def cases_ph(draw, tier="quick"):
         names = None
         if form == "files" and draw(st.booleans()):
             names = list(draw(st.permutations(_NAMES)))[:k]
-        phases[ph] = dict(form=form, N=Ns, names=names)
+        # a list of files may name the same file name in different directories (uniform/val.npz, cluster/val.npz)
+        phases[ph] = dict(form=form, N=Ns, names=names, subdirs=(form == "files" and draw(st.booleans())))
 
     def bs_for(ph, allow_none, inherited):
         p = phases[ph]
@@ -674,7 +675,11 @@ def _run_ph(case, ctx, tmp):
         for j, n in enumerate(p["N"]):
             cols = _cols(keys, id_pos, n, seed * 64 + pi * 8 + j)
             origin[ph].append({k: v.clone() for k, v in cols.items()})
-            files.append(f"{ph}{j}.npz")
+            if p.get("subdirs"):
+                os.makedirs(os.path.join(tmp, f"set{j}"), exist_ok=True)
+                files.append(f"set{j}/{ph}.npz")
+            else:
+                files.append(f"{ph}{j}.npz")
             np.savez(os.path.join(tmp, files[-1]), **{k: v.numpy() for k, v in cols.items()})
         kw[f"{ph}_file"] = files if p["form"] == "files" else files[0]
         if p["names"] is not None:
@@ -770,6 +775,8 @@ def _run_ph(case, ctx, tmp):
             _mutate_in_place(batches)
             ctx.event(f"{ph}:partial_last_batch={int(n % b != 0)}")
         ctx.event(f"{ph}:form={p['form']}" + (f"x{len(orig)}" if p["form"] == "files" else ""))
+        if p.get("subdirs") and len(p["N"]) >= 2:
+            ctx.event("files_with_one_name_in_several_directories" + ("|named" if p["names"] else "|default_names"))
         if p["form"] == "files":
             ctx.event(f"{ph}:bs={'list' if isinstance(conf[ph], list) else 'int'}|names={int(p['names'] is not None)}")
     ctx.event(f"shuffle_train={int(case['shuffle_train'])}")
